@@ -991,3 +991,62 @@ def r15g_gridcompat(repo, sink):
             worst = worst or f"{name}: == is {bool(got)}, must be {want}"
     sink.check(worst is None, "R15", "layout-equality:StructuredGrid", eq, ok="== holds only for compatible grids with identical axis order and directions",
                bad=(worst or "") + ": layout-sensitive equality decides whether data is passed through untransformed")
+
+
+# =========================================================================== R15c
+def r15c_copy_with(repo, sink):
+    """Info.copy_with: with use_none=False a None argument never overwrites a set field -
+    for time, grid, mask, units and every other metadata key alike (Input.exchange_info
+    merges delivered and requested info through it)."""
+    ic = repo.cls("Info")
+    f = repo.resolve(ic, "copy_with", "method")
+
+    class _I(FinamInterp):
+        def construct(self, cls, args, kwargs, node):
+            if cls.name == "Info":
+                o = Obj(cls=None, label="Info:copy")
+                o.fields.update(time=kwargs.get("time"), grid=kwargs.get("grid"), mask=kwargs.get("mask"), meta=dict(kwargs.get("meta") or {}))
+                return o
+            return super().construct(cls, args, kwargs, node)
+
+        def get_attr(self, obj, attr, node, mod):
+            if isinstance(obj, Obj) and obj.label.startswith("Info") and attr in obj.fields:
+                return obj.fields[attr]
+            return super().get_attr(obj, attr, node, mod)
+
+        def ext_call(self, name, args, kwargs, node):
+            if name == "copy.copy":
+                return dict(args[0]) if isinstance(args[0], dict) else args[0]
+            if name.endswith(".Unit"):
+                return Sym("unit", args[0])
+            return super().ext_call(name, args, kwargs, node)
+
+    worst = None
+    base = {"time": Sym("T"), "grid": Sym("G"), "mask": Sym("M"), "meta": {"units": Sym("unit", "m"), "extra": Sym("E")}}
+    for use_none in (True, False):
+        for key in ("time", "grid", "mask", "units", "extra", "new_key"):
+            for val in (None, Sym("NEW")):
+                me = Obj(cls=ic, label="Info")
+                me.fields.update(time=base["time"], grid=base["grid"], mask=base["mask"], meta=dict(base["meta"]),
+                                 _time=base["time"], _grid=base["grid"], _mask=base["mask"])
+                it = _I(repo)
+                try:
+                    got = it.run(f, [], {"use_none": use_none, key: val}, self_obj=me)
+                except (Raised, Undecided) as exc:
+                    raise AnalysisError(f"Info.copy_with outside vocabulary: {exc}") from exc
+                cur = got.fields[key] if key in ("time", "grid", "mask") else got.fields["meta"].get(key)
+                old = base[key] if key in ("time", "grid", "mask") else base["meta"].get(key)
+                if val is None and not use_none:
+                    want = old
+                elif key == "units" and val is not None:
+                    want = Sym("unit", val)
+                else:
+                    want = val
+                if cur != want:
+                    worst = worst or (f"copy_with(use_none={use_none}, {key}={val!r}) yields {key}={cur!r}, expected {want!r}"
+                                      + (": an unset value of the consumer overwrites what the producer delivered" if val is None and not use_none else ""))
+                if me.fields["meta"] != base["meta"]:
+                    worst = worst or "copy_with modifies the original info's metadata (shared dict)"
+    sink.check(worst is None, "R15", "copy_with-table", f,
+               ok="copy_with overrides exactly the given fields; with use_none=False unset values never overwrite; the original stays untouched",
+               bad=worst or "")
